@@ -149,10 +149,15 @@ class _OrbitCorrectionService(_DynamicsServiceBase):
                     "residual_norm": result.residual_norm,
                 }
             )
-            self.apply_correction(payload)
             return result.x_corrected, 2 * result.half_period, payload, result
 
         state, period, payload, result = self.get_or_create(cache_key, _factory)
+        # Apply the correction also when it is served from the cache: the orbit may have
+        # been brought back to the state this entry was computed from
+        dynamics = self.domain_obj.dynamics
+        if not (np.array_equal(np.asarray(state, dtype=float), np.asarray(dynamics.initial_state, dtype=float))
+                and dynamics.period == period):
+            self.apply_correction(payload)
         return state, period, result
 
     def apply_correction(self, update: OrbitCorrectionDomainPayload) -> OrbitCorrectionDomainPayload:
